@@ -16,6 +16,11 @@ def handle (zs : Zones) (ws : List String) : Option String :=
     match inTz v t false with
     | .ok r => some (replyV (inTz r t' false))
     | .error e => some ("err " ++ e.name)
+  | ["instance", z, w, f, so] => do
+    let z ← parseZRef zs z
+    let w ← w.toInt?
+    let so ← so.toInt?
+    some (replyV (instanceAware z w (f == "1") so))
   | ["intts", z, w, f] => do
     let v ← parseV zs z w f
     some (okInts [v.instant / AddDur.US])
